@@ -719,6 +719,61 @@ def r5d_recursion_over_graph_lists(prog, res):
     res.floor("R5d.recursion_over_graph_lists", "recursions over graph lists in the resolver", n, 15)
 
 
+def r10_scope_name_backpointer(prog, res):
+    """The parser keeps, in every entry of its scope stack, `pscope`: the nearest entry that has a printable name.  Diagnostics
+    (syntax error, too many nested scopes, unlabelled parameter type) print OBJget_symbol(scope->pscope->this_, scope->pscope->type),
+    and the OBJ[] table has no get_symbol function for the kinds of unnamed scopes (QUERY, increment, ALIAS): calling it for one is a
+    call through a null pointer.  So `pscope` must point at a named entry for every nesting of scopes.  That is an inductive
+    invariant over the stores into the member: every store `E->pscope = V` must give V as
+      * E itself where the entry is named (the true arm of a conditional on the scope's symbol, or the base entry of the stack), or
+      * the `pscope` of another entry (named by induction).
+    Any other value (a neighbouring entry itself, say) breaks the invariant for an unnamed scope nested in an unnamed scope."""
+    from ir import access_path
+    n = 0
+    for f in prog.all_functions():
+        if f.component != "express":
+            continue
+        base_fn = None
+        for a in f.walk():
+            if a["k"] != "Assign" or a.get("op", "=") != "=" or not a.get("ch"):
+                continue
+            l = strip(a["ch"][0])
+            if l is None or l["k"] != "Member" or l.get("n") != "pscope" or not l.get("ch"):
+                continue
+            ent = access_path(l["ch"][0]) or expr_str(l["ch"][0])
+            if base_fn is None:
+                # the function that sets the stack pointer to the start of the array initialises the base entry
+                base_fn = any(x["k"] == "Assign" and strip(x["ch"][0]) is not None and access_path(x["ch"][0]) == ent and
+                              strip(x["ch"][1]) is not None and strip(x["ch"][1])["k"] == "Ref" and "[" in f.ty(strip(x["ch"][1]))
+                              for x in f.walk())
+            bad = []
+
+            def leaves(v, named):
+                v = strip(v)
+                while v is not None and v["k"] in ("Paren", "Cast") and v.get("ch"):
+                    v = strip(v["ch"][0])
+                if v is None:
+                    return
+                if v["k"] == "Cond" and len(v.get("ch") or []) == 3:
+                    leaves(v["ch"][1], True)
+                    leaves(v["ch"][2], False)
+                    return
+                if v["k"] == "Member" and v.get("n") == "pscope":
+                    return          # another entry's back pointer
+                if (access_path(v) or expr_str(v)) == ent and (named or base_fn):
+                    return          # the entry itself, where it is named
+                bad.append((v, named))
+            leaves(a["ch"][1], False)
+            n += 1
+            res.add("R10.scope_name_backpointer_inductive", "R10|%s|%s|%s" % (f.relfile(), f.name, a["l"]), f.where(a), not bad,
+                    "`%s` is the entry itself where it is named, else another entry's pscope" % expr_str(a)[:60] if not bad else
+                    "`%s` can store `%s`, which is neither the entry itself under its name test nor another entry's `pscope`: an unnamed "
+                    "scope nested in an unnamed scope (QUERY in QUERY) then names an unnamed entry, and the next diagnostic calls "
+                    "OBJget_symbol() for a kind that has no get_symbol function (null function pointer)" %
+                    (expr_str(a)[:70], expr_str(bad[0][0])[:30]))
+    res.floor("R10.scope_name_backpointer_inductive", "stores into the scope stack's pscope", n, 5)
+
+
 def selftest(res):
     import selftest as st
     import report
@@ -746,6 +801,7 @@ def run(prog, res, tier):
     # a freed local (or a copy of it) is not used again before it is re-assigned (engine of C05 R9)
     from rules import c05 as _c05
     _c05.r9_no_use_after_delete(prog, res, components=("express", "exppp", "exp2cxx", "exp2python"), rule="R2b.no_use_after_free", floor=10)
+    r10_scope_name_backpointer(prog, res)
     r5_recursion_marks(prog, res)
     r5b_stamp_stable(prog, res)
     r5c_graph_walks(prog, res)
